@@ -13,6 +13,8 @@ package driver
 
 import (
 	"fmt"
+	"go/ast"
+	"go/token"
 	"go/types"
 	"os"
 	"os/exec"
@@ -31,6 +33,7 @@ type instVariant struct {
 	templateData string // YAML flow mapping
 	stub         bool
 	resets       bool
+	unroll       bool
 }
 
 var matryerVariants = []instVariant{
@@ -74,20 +77,34 @@ func generateInstances(variants []instVariant) (scratch, root string, err error)
 	os.MkdirAll(root, 0o755)
 	src := filepath.Join(verifDir, "corpus")
 	gomod, _ := os.ReadFile(filepath.Join(src, "go.mod"))
+	for _, v := range variants {
+		if v.template == "testify" {
+			// the generated testify mocks import testify: same version as the repository, resolved from the module cache
+			gomod = append(gomod, []byte("\nrequire github.com/stretchr/testify "+repoModuleVersion("github.com/stretchr/testify")+"\n")...)
+			if sum, err := os.ReadFile(filepath.Join(repoDir(), "go.sum")); err == nil {
+				os.WriteFile(filepath.Join(root, "go.sum"), sum, 0o644)
+			}
+			break
+		}
+	}
 	os.WriteFile(filepath.Join(root, "go.mod"), gomod, 0o644)
 	ifaces, e := os.ReadFile(filepath.Join(src, "m", "ifaces.go"))
 	if e != nil {
 		return scratch, root, e
 	}
 	var y strings.Builder
-	y.WriteString("formatter: goimports\nforce-file-write: true\ndir: \"{{.InterfaceDir}}\"\nfilename: \"mocks_gen.go\"\npkgname: \"{{.SrcPackageName}}\"\nstructname: \"Moq{{.InterfaceName}}\"\npackages:\n")
+	y.WriteString("formatter: goimports\nforce-file-write: true\ndir: \"{{.InterfaceDir}}\"\nfilename: \"mocks_gen.go\"\npkgname: \"{{.SrcPackageName}}\"\npackages:\n")
 	for _, v := range variants {
 		dir := filepath.Join(root, v.pkg)
 		os.MkdirAll(dir, 0o755)
 		// the corpus source, with only its package clause renamed (mechanical)
 		text := strings.Replace(string(ifaces), "\npackage m\n", "\npackage "+v.pkg+"\n", 1)
 		os.WriteFile(filepath.Join(dir, "ifaces.go"), []byte(text), 0o644)
-		fmt.Fprintf(&y, "  %s/%s:\n    config:\n      all: true\n      template: %s\n      template-data: %s\n", corpusModule, v.pkg, v.template, v.templateData)
+		prefix := "Moq"
+		if v.template == "testify" {
+			prefix = "Mock"
+		}
+		fmt.Fprintf(&y, "  %s/%s:\n    config:\n      all: true\n      template: %s\n      structname: \"%s{{.InterfaceName}}\"\n      template-data: %s\n", corpusModule, v.pkg, v.template, prefix, v.templateData)
 	}
 	os.WriteFile(filepath.Join(root, ".mockery.yml"), []byte(y.String()), 0o644)
 	run := exec.Command(bin, "--config", filepath.Join(root, ".mockery.yml"))
@@ -97,6 +114,21 @@ func generateInstances(variants []instVariant) (scratch, root string, err error)
 		return scratch, root, fmt.Errorf("mockery failed on the corpus: %v\n%s", e, tail(string(out), 2000))
 	}
 	return scratch, root, nil
+}
+
+// repoModuleVersion reads the version of a dependency from /repo's go.mod.
+func repoModuleVersion(mod string) string {
+	data, _ := os.ReadFile(filepath.Join(repoDir(), "go.mod"))
+	for _, ln := range strings.Split(string(data), "\n") {
+		f := strings.Fields(ln)
+		if len(f) >= 2 && f[0] == mod {
+			return f[1]
+		}
+		if len(f) >= 3 && f[0] == "require" && f[1] == mod {
+			return f[2]
+		}
+	}
+	return "v0.0.0"
 }
 
 func tail(s string, n int) string {
@@ -349,6 +381,7 @@ func matryerContracts(p *packages.Package, v instVariant) (string, []structFact)
 				fmt.Fprintf(&b, "//@ func %s props=C04,C05\n", target("Reset"+mi.name+"Calls"))
 				fmt.Fprintf(&b, "//@   guarded[C05] %s by %s\n", loc, lock)
 				fmt.Fprintf(&b, "//@   ensures#emptied len(%s) == 0\n", loc)
+				fmt.Fprintf(&b, "//@   ensures#unshared[C05] !shares(%s, old(%s))\n", loc, loc)
 				fmt.Fprintf(&b, "//@   returns#released[C05] !locked(%s)\n", lock)
 				fmt.Fprintf(&b, "//@   assigns %s\n\n", loc)
 			}
@@ -359,6 +392,7 @@ func matryerContracts(p *packages.Package, v instVariant) (string, []structFact)
 			for _, mi := range infos {
 				fmt.Fprintf(&b, "//@   guarded[C05] %s.calls.%s by %s.lock%s\n", recv, mi.name, recv, mi.name)
 				emptied = append(emptied, fmt.Sprintf("len(%s.calls.%s) == 0", recv, mi.name))
+				fmt.Fprintf(&b, "//@   ensures#unshared%s[C05] !shares(%s.calls.%s, old(%s.calls.%s))\n", mi.name, recv, mi.name, recv, mi.name)
 				assigns = append(assigns, fmt.Sprintf("%s.calls.%s", recv, mi.name))
 				fmt.Fprintf(&b, "//@   returns#released%s[C05] !locked(%s.lock%s)\n", mi.name, recv, mi.name)
 			}
@@ -390,19 +424,49 @@ func matryerContracts(p *packages.Package, v instVariant) (string, []structFact)
 
 // instancePhase: generate, instantiate contracts, verify. kind is "matryer" (C04, C05).
 func instancePhase(cr *checkResult, update bool) {
-	variants := matryerVariants
+	var variants []instVariant
+	switch cr.prop {
+	case "C04":
+		variants = matryerVariants
+	case "C03":
+		variants = testifyVariants
+	default:
+		variants = append(append([]instVariant{}, matryerVariants...), testifyVariants...)
+	}
 	scratch, root, err := generateInstances(variants)
 	if scratch != "" {
-		defer os.RemoveAll(scratch)
+		if os.Getenv("VERIF_KEEP_SCRATCH") != "" {
+			fmt.Println("scratch kept:", scratch)
+		} else {
+			defer os.RemoveAll(scratch)
+		}
+	}
+	concrete := func(name, what string, err error) {
+		// a failure with a concrete input: the corpus (valid Go, stdlib only) and the configuration written by generateInstances
+		dir := filepath.Join(outDir(), "replays", cr.prop)
+		os.MkdirAll(dir, 0o755)
+		path := filepath.Join(dir, sanitize(name)+".txt")
+		var vs []string
+		for _, v := range variants {
+			vs = append(vs, fmt.Sprintf("%s: template %s, template-data %s", v.pkg, v.template, v.templateData))
+		}
+		os.WriteFile(path, []byte(fmt.Sprintf("property: %s\nfailed obligation: %s\n%s\nfailing input: the interfaces of /verif/corpus/m/ifaces.go, mocked with 'all: true', formatter goimports, in the variants\n  %s\nreplay: build mockery from the tree, copy /verif/corpus to a scratch module, run mockery there with that configuration, then 'go build ./...'\noutput:\n%s\n", cr.prop, name, what, strings.Join(vs, "\n  "), err.Error())), 0o644)
+		cr.obligations++
+		cr.per = append(cr.per, perObl{Name: name, Kind: "instance", Result: "refuted", Backend: "mockery + go/types"})
+		cr.violations = append(cr.violations, fmt.Sprintf("VIOLATION property=%s replay=%s obligation=%s", cr.prop, path, name))
 	}
 	if err != nil {
-		cr.undecided = append(cr.undecided, fmt.Sprintf("UNDECIDED property=%s obligation=generate reason=%s", cr.prop, strings.ReplaceAll(err.Error(), "\n", " | ")))
+		if root == "" {
+			// the tree itself does not build: nothing can be decided
+			cr.undecided = append(cr.undecided, fmt.Sprintf("UNDECIDED property=%s obligation=build reason=%s", cr.prop, strings.ReplaceAll(err.Error(), "\n", " | ")))
+			return
+		}
+		concrete("instances/generate", "mockery fails on the corpus (a valid input)", err)
 		return
 	}
 	pkgs, err := loadTypes(root, variants)
 	if err != nil {
-		// the generated code of the corpus does not compile: nothing can be verified about it
-		cr.undecided = append(cr.undecided, fmt.Sprintf("UNDECIDED property=%s obligation=load-generated reason=%s", cr.prop, strings.ReplaceAll(err.Error(), "\n", " | ")))
+		concrete("instances/compile", "the mocks generated for the corpus do not type-check", err)
 		return
 	}
 	var pats []string
@@ -413,7 +477,13 @@ func instancePhase(cr *checkResult, update bool) {
 			cr.undecided = append(cr.undecided, fmt.Sprintf("UNDECIDED property=%s obligation=load-generated reason=package %s missing", cr.prop, v.pkg))
 			return
 		}
-		text, facts := matryerContracts(p, v)
+		var text string
+		var facts []structFact
+		if v.template == "testify" {
+			text, facts = testifyContracts(p, v)
+		} else {
+			text, facts = matryerContracts(p, v)
+		}
 		os.WriteFile(filepath.Join(root, v.pkg, "zz_verif_contracts.go"), []byte(text), 0o644)
 		pats = append(pats, "./"+v.pkg)
 		for _, f := range facts {
@@ -440,4 +510,225 @@ func instancePhase(cr *checkResult, update bool) {
 	}
 	cr.extra["instances"] = map[string]any{"corpus": "/verif/corpus/m/ifaces.go", "variants": len(variants), "generated_packages": pats}
 	contractPhase(cr, w, update)
+}
+
+// ---- testify-style mocks (C03; C05: the generated code writes no state of its own) ----
+
+var testifyVariants = []instVariant{
+	{pkg: "t", template: "testify", templateData: "{unroll-variadic: true}", unroll: true},
+	{pkg: "tn", template: "testify", templateData: "{unroll-variadic: false}"},
+}
+
+// retLocal finds, in the generated method, the local that receives the result of Called.
+func retLocal(p *packages.Package, fn *types.Func) string {
+	for _, f := range p.Syntax {
+		for _, d := range f.Decls {
+			fd, ok := d.(*ast.FuncDecl)
+			if !ok || fd.Body == nil || p.TypesInfo.Defs[fd.Name] != fn {
+				continue
+			}
+			name := ""
+			ast.Inspect(fd.Body, func(n ast.Node) bool {
+				as, ok := n.(*ast.AssignStmt)
+				if !ok || as.Tok != token.DEFINE || len(as.Lhs) != 1 || len(as.Rhs) != 1 || name != "" {
+					return true
+				}
+				lhs, ok := as.Lhs[0].(*ast.Ident)
+				if !ok {
+					return true
+				}
+				switch r := as.Rhs[0].(type) {
+				case *ast.Ident:
+					if r.Name == "tmpRet" {
+						name = lhs.Name
+					}
+				case *ast.CallExpr:
+					if se, ok := r.Fun.(*ast.SelectorExpr); ok && se.Sel.Name == "Called" {
+						name = lhs.Name
+					}
+				}
+				return true
+			})
+			return name
+		}
+	}
+	return ""
+}
+
+func hasLoop(p *packages.Package, fn *types.Func) bool {
+	found := false
+	for _, f := range p.Syntax {
+		for _, d := range f.Decls {
+			fd, ok := d.(*ast.FuncDecl)
+			if !ok || fd.Body == nil || p.TypesInfo.Defs[fd.Name] != fn {
+				continue
+			}
+			ast.Inspect(fd.Body, func(n ast.Node) bool {
+				switch n.(type) {
+				case *ast.RangeStmt, *ast.ForStmt:
+					found = true
+				case *ast.FuncLit:
+					return false
+				}
+				return true
+			})
+		}
+	}
+	return found
+}
+
+func testifyContracts(p *packages.Package, v instVariant) (string, []structFact) {
+	var b strings.Builder
+	var facts []structFact
+	fmt.Fprintf(&b, "//go:build verif\n\n// Contracts instantiated by govc from the source interfaces' signatures (DESIGN.md 5.4). Not hand-written.\npackage %s\n\n", p.Name)
+	scope := p.Types.Scope()
+	names := scope.Names()
+	sort.Strings(names)
+	for _, n := range names {
+		tn, ok := scope.Lookup(n).(*types.TypeName)
+		if !ok || strings.HasPrefix(n, "Mock") {
+			continue
+		}
+		iface, ok := tn.Type().Underlying().(*types.Interface)
+		if !ok {
+			continue
+		}
+		fact := func(name string, ok bool, why string) {
+			facts = append(facts, structFact{p.Name + ".Mock" + n + "/" + name, ok, why})
+		}
+		mockTN, _ := scope.Lookup("Mock" + n).(*types.TypeName)
+		if mockTN == nil {
+			fact("exists", false, "no type Mock"+n+" was generated")
+			continue
+		}
+		mockS, _ := mockTN.Type().Underlying().(*types.Struct)
+		// "the generated code adds no unsynchronised shared state on top of testify's": the mock is the embedded mock.Mock and nothing else
+		onlyMock := mockS != nil && mockS.NumFields() == 1 && mockS.Field(0).Embedded() && types.TypeString(mockS.Field(0).Type(), nil) == "github.com/stretchr/testify/mock.Mock"
+		fact("only-embedded-mock", onlyMock, "the mock struct consists of the embedded testify mock.Mock only")
+		expTN, _ := scope.Lookup("Mock" + n + "_Expecter").(*types.TypeName)
+		fact("expecter", expTN != nil, "type Mock"+n+"_Expecter exists")
+		if expTN == nil || mockS == nil {
+			continue
+		}
+		mset := types.NewMethodSet(types.NewPointer(mockTN.Type()))
+		eset := types.NewMethodSet(types.NewPointer(expTN.Type()))
+		var methods []*types.Func
+		for i := 0; i < iface.NumMethods(); i++ {
+			methods = append(methods, iface.Method(i))
+		}
+		sort.Slice(methods, func(i, j int) bool { return methods[i].Name() < methods[j].Name() })
+		for _, m := range methods {
+			name := m.Name()
+			srcSig := m.Type().(*types.Signature)
+			sel := mset.Lookup(p.Types, name)
+			if sel == nil {
+				fact(name+"/method", false, "the mock has no method "+name)
+				continue
+			}
+			gen := sel.Obj().(*types.Func)
+			genSig := gen.Type().(*types.Signature)
+			okShape := genSig.Params().Len() == srcSig.Params().Len() && genSig.Results().Len() == srcSig.Results().Len() && genSig.Variadic() == srcSig.Variadic()
+			fact(name+"/arity", okShape, "same number of parameters and results, same variadic-ness as "+n+"."+name)
+			if !okShape {
+				continue
+			}
+			np, nr := genSig.Params().Len(), genSig.Results().Len()
+			recv := "_mock"
+			if r := genSig.Recv(); r != nil && r.Name() != "" {
+				recv = r.Name()
+			}
+			var pack string
+			boxed := func(k int) string { return fmt.Sprintf("$0[%d] == box(param(%d))", k, k) }
+			join := func(xs []string) string {
+				if len(xs) == 0 {
+					return "true"
+				}
+				return strings.Join(xs, " && ")
+			}
+			switch {
+			case !genSig.Variadic():
+				cs := []string{fmt.Sprintf("len($0) == %d", np)}
+				for k := 0; k < np; k++ {
+					cs = append(cs, boxed(k))
+				}
+				pack = join(cs)
+			case !v.unroll:
+				full := []string{fmt.Sprintf("len($0) == %d", np)}
+				for k := 0; k < np; k++ {
+					full = append(full, boxed(k))
+				}
+				short := []string{fmt.Sprintf("len($0) == %d", np-1)}
+				for k := 0; k < np-1; k++ {
+					short = append(short, boxed(k))
+				}
+				pack = fmt.Sprintf("(len(param(%d)) > 0 ==> %s) && (len(param(%d)) == 0 ==> %s)", np-1, join(full), np-1, join(short))
+			default:
+				cs := []string{fmt.Sprintf("len($0) == %d + len(param(%d))", np-1, np-1)}
+				for k := 0; k < np-1; k++ {
+					cs = append(cs, boxed(k))
+				}
+				cs = append(cs, fmt.Sprintf("(forall j int :: 0 <= j && j < len(param(%d)) ==> $0[%d + j] == box(param(%d)[j]))", np-1, np-1, np-1))
+				cs = append(cs, fmt.Sprintf("!shares($0, param(%d))", np-1))
+				pack = join(cs)
+			}
+			fmt.Fprintf(&b, "// %s.%s: hands exactly the call's arguments to Called, once; every result is the configured value at its\n// position or what a configured provider function returned for exactly the arguments; writes no state of its own.\n", n, name)
+			fmt.Fprintf(&b, "//@ func (*Mock%s).%s props=C03,C05\n", n, name)
+			fmt.Fprintf(&b, "//@   safety callbacks-exempt\n//@   safety type-assert-may-panic\n//@   assigns nothing\n")
+			fmt.Fprintf(&b, "//@   site#called Called: $recv == %s && %s\n", recv, pack)
+			fmt.Fprintf(&b, "//@   returns#once called(\"Called\") == 1\n")
+			if genSig.Variadic() && v.unroll && hasLoop(p, gen) {
+				fmt.Fprintf(&b, "//@   loop 0: invariant len(_va) == len(param(%d)) && !shares(_va, param(%d)) && (forall j int :: 0 <= j && j < $i ==> _va[j] == box(param(%d)[j]))\n", np-1, np-1, np-1)
+			}
+			if nr > 0 {
+				ret := retLocal(p, gen)
+				fact(name+"/ret-local", ret != "", "the result of Called is bound to a local")
+				if ret == "" {
+					continue
+				}
+				fmt.Fprintf(&b, "//@   panics_if len(%s) == 0\n", ret)
+				fmt.Fprintf(&b, "//@   returns#haveret len(%s) > 0\n", ret)
+				var as []string
+				for k := 0; k < np; k++ {
+					as = append(as, fmt.Sprintf("$%d == param(%d)", k, k))
+				}
+				fmt.Fprintf(&b, "//@   site#args $apply: %s\n", join(as))
+				fmt.Fprintf(&b, "//@   site#fromret $apply: exists i int :: 0 <= i && i < len(%s) && box($fn) == %s[i]\n", ret, ret)
+				for i := 0; i < nr; i++ {
+					rn := "result"
+					if nr > 1 {
+						rn = fmt.Sprintf("result%d", i)
+					}
+					fmt.Fprintf(&b, "//@   returns#result%d (%s[%d] != nil && box(%s) == %s[%d]) || (%s[%d] == nil && iszero(%s)) || produced(%s)\n", i, ret, i, rn, ret, i, ret, i, rn, rn)
+				}
+			}
+			fmt.Fprintf(&b, "\n")
+			// the expecter method registers the expectation under the method's name with the arguments in order
+			if es := eset.Lookup(p.Types, name); es != nil {
+				esig := es.Obj().(*types.Func).Type().(*types.Signature)
+				okE := esig.Params().Len() == np && esig.Variadic() == genSig.Variadic()
+				fact(name+"/expecter-arity", okE, "the expecter method takes one (interface{}) parameter per parameter of the method")
+				if okE {
+					var cs []string
+					if !genSig.Variadic() {
+						cs = append(cs, fmt.Sprintf("len($1) == %d", np))
+						for k := 0; k < np; k++ {
+							cs = append(cs, fmt.Sprintf("$1[%d] == param(%d)", k, k))
+						}
+					} else {
+						cs = append(cs, fmt.Sprintf("len($1) == %d + len(param(%d))", np-1, np-1))
+						for k := 0; k < np-1; k++ {
+							cs = append(cs, fmt.Sprintf("$1[%d] == param(%d)", k, k))
+						}
+						cs = append(cs, fmt.Sprintf("(forall j int :: 0 <= j && j < len(param(%d)) ==> $1[%d + j] == param(%d)[j])", np-1, np-1, np-1))
+					}
+					fmt.Fprintf(&b, "//@ func (*Mock%s_Expecter).%s props=C03\n", n, name)
+					fmt.Fprintf(&b, "//@   site#on On: $0 == %q && %s\n", name, join(cs))
+					fmt.Fprintf(&b, "//@   returns#once called(\"On\") == 1\n\n")
+				}
+			} else {
+				fact(name+"/expecter-method", false, "the expecter has no method "+name)
+			}
+		}
+	}
+	return b.String(), facts
 }
